@@ -89,7 +89,7 @@ pub fn normalise_msg(m: &str) -> String {
         }
         out.push(c);
     }
-    out.chars().take(160).collect()
+    out.chars().take(40).collect()
 }
 
 fn crate_relative(file: &str) -> String {
